@@ -80,6 +80,26 @@ def gen_cases(rng, tier, scale):
         if not any(o[0] in ('regs', 'regf', 'regt') for o in ops):
             ops.insert(0, ('fw', 'f1', VALID[0])); ops.insert(1, ('regf', 'a', 'f1'))
         cases.append({'line': to_line(f'h{k}', ops), 'ops': ops, 'kind': 'history', 'tags': ['random']})
+    # scenario skeletons (multi-step stories around dev-mode tracking, untracking and flag toggles) with
+    # random extra operations inserted at random positions
+    SK = [
+        [('dev', 1), ('fw', 'f1', 'A1'), ('regf', 'a', 'f1'), ('dev', 0), ('fw', 'f1', 'B2 {{v}}'), ('dev', 1)],
+        [('dev', 1), ('fw', 'f1', 'A1'), ('regf', 'a', 'f1'), ('dev', 0), ('fd', 'f1'), ('dev', 1), ('regs', 'b', 'C3{{#if v}}y{{/if}}')],
+        [('dev', 1), ('fw', 'f2', 'A1'), ('regf', 'a', 'f2'), ('unreg', 'a'), ('fw', 'f2', 'B2 {{v}}'), ('regs', 'a', 'C3{{#if v}}y{{/if}}')],
+        [('dev', 1), ('fw', 'f1', 'A1'), ('regf', 'a', 'f1'), ('clear',), ('fw', 'f1', 'B2 {{v}}'), ('regf', 'b', 'f1'), ('fd', 'f1')],
+        [('dev', 1), ('fw', 'f1', 'A1'), ('regf', 'a', 'f1'), ('clone',), ('sel', 1), ('dev', 0), ('sel', 0), ('fw', 'f1', 'B2 {{v}}'), ('sel', 1), ('dev', 1)],
+        [('fw', 'f1', 'A1'), ('regf', 'a', 'f1'), ('dev', 1), ('fw', 'f1', 'B2 {{v}}'), ('regf', 'b', 'f1'), ('fw', 'f1', 'C3{{#if v}}y{{/if}}')],
+        [('dev', 1), ('fw', 'f1', 'A1'), ('regf', 'a', 'f1'), ('regf', 'b', 'f1'), ('fd', 'f1'), ('unreg', 'a'), ('unreg', 'b')],
+        [('pi', 1), ('regs', 'b', 'B2 {{v}}'), ('regs', 'a', '  {{> b}}\n'), ('pi', 0), ('regs', 'c', '  {{> b}}\n'), ('clone',), ('sel', 1), ('pi', 1)],
+        [('dev', 1), ('fw', 'f1', 'A1'), ('regf', 'a', 'f1'), ('regs', 'a', 'B2 {{v}}'), ('fw', 'f1', 'C3{{#if v}}y{{/if}}'), ('dev', 0), ('dev', 1)],
+        [('dev', 1), ('fw', 'f3', '{{#if}'), ('regf', 'a', 'f3'), ('fw', 'f3', 'A1'), ('regf', 'a', 'f3'), ('fw', 'f3', '{{#if}'), ('dev', 0)],
+    ]
+    m = (120 if tier == 'quick' else 2000) * scale
+    for k in range(m):
+        ops = list(rng.choice(SK))
+        for _ in range(rng.randint(0, 3)):
+            ops.insert(rng.randint(0, len(ops)), gen_ops(rng, 1)[0])
+        cases.append({'line': to_line(f's{k}', ops), 'ops': ops, 'kind': 'history', 'tags': ['scenario']})
     if tier == 'thorough':
         alpha = [('regs', 'a', 'A1'), ('regs', 'a', '{{#if}'), ('fw', 'f1', 'B2 {{v}}'), ('regf', 'a', 'f1'), ('fd', 'f1'),
                  ('unreg', 'a'), ('dev', 1), ('dev', 0), ('regt', 'a', 'C3{{#if v}}y{{/if}}'), ('clear',), ('regs', 'b', 'A1')]
